@@ -194,6 +194,8 @@ def run_one(tape: Any, cfg: Dict[str, Any], forbid: FrozenSet[str] = frozenset()
             'recv': ['ECONNRESET', 'ETIMEDOUT', 'EHOSTUNREACH', 'ENETUNREACH', 'ENOBUFS'],
             'connect': ['ECONNREFUSED', 'ETIMEDOUT', 'EHOSTUNREACH', 'ENETUNREACH', 'ENOBUFS'],
             'getaddrinfo': ['EAI_NONAME', 'EAI_AGAIN'],
+            # registering / re-arming one of the adversary's descriptors with the worker's selector fails
+            'epoll_ctl': ['ENOMEM', 'ENOSPC'],
         }, p_on=0.5, budget=6)
         if slow_reader or stalled_upload:
             # these archetypes are about a well-behaved but slow / stuck connection: no injected errors
